@@ -693,7 +693,7 @@ def directed_boundaries(ck, rng):
                 for lab2, q2 in W.sites_module(q, rng, depth2=False):
                     c.add("module", lab + "+" + lab2, q2.prql())
         cases.append(c)
-    for _ in range(ck.n(4, 10)):
+    for si in range(ck.n(6, 12)):
         n1, n2 = rng.choice([("a", "b"), ("b", "c"), ("c", "g"), ("g", "a")])
         d1 = rng.random() < 0.7
         d2 = d1 if rng.random() < 0.8 else not d1
@@ -705,7 +705,7 @@ def directed_boundaries(ck, rng):
                  S("take", raw="take %d" % rng.randint(3, 5), coq=None)]
         steps[-1].coq_text = "TTake None (Some (%s))" % steps[-1].raw.split()[1]
         steps[-1].info = {"rng": (None, int(steps[-1].raw.split()[1]))}
-        if rng.random() < 0.5:
+        if si % 2 == 0:
             steps += [S("derive", items=[("xs", e2)]), S("select", items=[(None, _col(c)) for c in keep + ["xs"]])]
         else:
             steps += [S("select", items=[(None, _col(c)) for c in keep] + [("xs", e2)])]
